@@ -41,6 +41,45 @@ def _playback_values(scr, h):
     return [{"value": v.strip(), "bytes": b.strip()} for v, b in vals]
 
 
+def native_confirm(prop, lemma, scr):
+    """try to reproduce a failing lemma against the REAL binary built from the same working tree, using the
+    demonstration scripts kept with the seeded changes (each exercises one failure class natively).
+    -> list of {"demo": path, "exit": rc}; exit 1 = the real code shows the violation"""
+    import glob
+    out = []
+    tree = os.path.join(scr.root, "nativesrc")
+    built = False
+    for mp in sorted(glob.glob(os.path.join(xv.VERIF, "seeded", "*", "meta.json"))):
+        try:
+            m = json.load(open(mp))
+        except Exception:
+            continue
+        if m.get("breaks_property") != prop or not m.get("native_fast") or not m.get("native_for"):
+            continue
+        if not re.search(m["native_for"], lemma):
+            continue
+        demo = os.path.join(os.path.dirname(mp), "demo.sh")
+        if not os.path.exists(demo):
+            continue
+        if not built:
+            subprocess.call(["rsync", "-a", "--delete", "--exclude", "/target", "--exclude", "/.git", xv.REPO + "/", tree + "/"])
+            if os.path.isdir(os.path.join(xv.REPO, "target")) and not os.path.isdir(os.path.join(tree, "target")):
+                subprocess.call(["cp", "-a", os.path.join(xv.REPO, "target"), os.path.join(tree, "target")])
+            b = subprocess.run(["cargo", "build", "--offline", "-q"], cwd=tree, env=xv.ENV, capture_output=True, text=True)
+            if b.returncode != 0:
+                return out
+            built = True
+        try:
+            r = subprocess.run(["bash", demo, tree], capture_output=True, text=True, timeout=600, env=xv.ENV)
+            out.append({"demo": demo, "exit": r.returncode, "tail": (r.stdout + r.stderr)[-400:]})
+        except subprocess.TimeoutExpired:
+            out.append({"demo": demo, "exit": "timeout"})
+    if built and os.environ.get("XCP_VERIF_KEEP") != "1":
+        import shutil
+        shutil.rmtree(tree, ignore_errors=True)
+    return out
+
+
 def record(prop, name, kind, r, detail, scr):
     os.makedirs(REPLAY_DIR, exist_ok=True)
     path = os.path.join(REPLAY_DIR, "%s-%s.json" % (prop, name))
@@ -62,6 +101,13 @@ def record(prop, name, kind, r, detail, scr):
         doc["harness"] = name.split("-")[0]
         confirmed = bool(r.get("replayed", False))
         doc["how"] = r.get("how", "")
+        doc["model_replay"] = "the counterexample's values were pinned and the lemma re-decided on that single point: still violated" if confirmed else "not confirmed"
+        if confirmed and os.environ.get("XCP_VERIF_NO_NATIVE") != "1":
+            nat = native_confirm(prop, str(r.get("lemma", "")), scr)
+            if nat:
+                doc["native"] = nat
+                if any(x.get("exit") == 1 for x in nat):
+                    doc["replay"] = "native"
     native = r.get("native_replay")
     if native:
         doc["native"] = native
